@@ -161,7 +161,9 @@ void SelectLoop::removeInvalidFds()
         if (!IsFdValid(fd)) {
             LogWarn("fd:%d is invalid", fd);
             SelectFdSharedData *data = item.second;
-            for (auto event : data->fd_events) {
+            //! 要先复制一份，因为disable()会改动data->fd_events，引起迭代器失效问题
+            auto tmp = data->fd_events;
+            for (auto event : tmp) {
                 event->disable();
             }
         }
